@@ -12,7 +12,7 @@ from harness import containers as C
 from pyasn1.type import univ, char, useful
 from pyasn1 import error
 
-IMPORTS = 'Base.Bytes Model.Tag Model.Container Spec.ListSpec'
+IMPORTS = 'Base.Bytes Model.Tag Model.Container Spec.ListSpec Proofs.ContainerSortKey'
 
 # open findings this check can meet, decided by the class predicates in containers.py (finding_class)
 FINDINGS = ('F18a', 'F18d', 'F18h', 'F18i')
@@ -28,6 +28,11 @@ REGRESSIONS = [
     ('F18f', 'SetOf(Integer)', [('SClear',), ('SClone', True), ('SIsValue',)]),
     ('F18g', 'Choice3', [('RSetItem', ('KName', 1), ('PInt', 5)), ('RSetItem', ('KPos', -2), ('PInt', 6)), ('RGetName0',)]),
     ('F18g', 'Choice3', [('RSetItem', ('KPos', -1), ('PInt', 6)), ('RGetName0',), ('REncode',)]),
+    # fixed histories that are not tied to a defect: keyed sorts over members that tie under the key
+    ('stable-sort', 'SequenceOf(Integer)', [('SExtend', [('PInt', 11), ('PInt', 5), ('PInt', 21), ('PInt', 12), ('PInt', 41)]),
+                                            ('SSortKey', 10, True), ('SIter',), ('SEncode',), ('SSortKey', 10, False), ('SIter',)]),
+    ('stable-sort', 'SetOf(Integer)', [('SExtend', [('PInt', 3), ('PInt', 13), ('PInt', 2), ('PInt', 23)]), ('SSortKey', 10, True), ('SIter',)]),
+    ('stable-sort', 'SequenceOf()', [('SAppend', ('PAsn', 4)), ('SAppend', ('PAsn', 2)), ('SAppend', ('PAsn', 6)), ('SSortKey', 2, True), ('SIter',)]),
 ]
 
 
@@ -64,7 +69,7 @@ def fixed_cases(ctx, kinds):
         ctx.case(('regression', fid, kname, repr(ops)), True)
         ctx.stats['repaired-defect histories replayed'] += 1
         for x in failures:
-            ctx.prop_fail('%s: %s (history of repaired defect %s)' % (kind.name, x.what, fid),
+            ctx.prop_fail('%s: %s (fixed history %s)' % (kind.name, x.what, fid),
                           {'kind': kind.name, 'history': [op_json(o) for o in ops], 'detail': op_json(x.detail),
                            'outcomes': [op_json(t[0]) for t in trace]}, finding=x.finding)
         exprs.append(kind.coq_check(ops[:upto], trace[:upto])); meta.append((kind, ops[:upto], trace[:upto]))
@@ -156,7 +161,7 @@ def run(ctx):
     per_kind = ctx.n(40, 200)
     maxlen = 40 if quick else 400
     ctx.rule = ('random operation histories (length 5..%d; every 4th history "wild": arguments also from the classes of the '
-                'recorded findings F18a/d/i) over SequenceOf(Integer), SetOf(Integer), SequenceOf(), a 4-component Sequence '
+                'recorded findings F18a/d/i; sorts with key=int(x)%%m and reverse over members that tie under the key) over SequenceOf(Integer), SetOf(Integer), SequenceOf(), a 4-component Sequence '
                 'and Set (Req/Opt/Default, distinct tags) and a 3-alternative Choice; after every step: outcome and concrete state '
                 'vs the Coq model, outcome/content/len/isValue vs a plain list/dict/option prototype; non-trivial = history with '
                 '>= 3 successful mutators' % maxlen)
